@@ -4,7 +4,10 @@ rejections against known_findings.txt, write evidence."""
 import json, os, re, shutil, subprocess, sys, time, glob, hashlib
 from concurrent.futures import ThreadPoolExecutor
 
-VERIF = "/verif"
+# the checks run from wherever this file lives (normally /verif) against REPO (normally /repo);
+# both can be redirected so that a seeded change can be evaluated on copies in the background
+VERIF = os.path.dirname(os.path.dirname(os.path.abspath(__file__)))
+REPO = os.environ.get("VERIF_REPO", "/repo")
 SPEC = f"{VERIF}/spec"
 HARNESS = f"{VERIF}/harness"
 HCV = f"{HARNESS}/target/release/hcv"
@@ -35,7 +38,11 @@ def build_harness():
     """Rebuild the harness against /repo's current working tree (path dependency)."""
     lock = f"{HARNESS}/Cargo.lock"
     if not os.path.exists(lock):
-        shutil.copy("/repo/Cargo.lock", lock)
+        shutil.copy(f"{REPO}/Cargo.lock", lock)
+    toml = open(f"{HARNESS}/Cargo.toml").read()
+    want = re.sub(r'hypercore = \{ path = "[^"]*"', f'hypercore = {{ path = "{REPO}"', toml)
+    if want != toml:
+        open(f"{HARNESS}/Cargo.toml", "w").write(want)
     t = time.time()
     rc, out = sh("cargo build --release --offline 2>&1", cwd=HARNESS, timeout=1500,
                  env={"CARGO_NET_OFFLINE": "true"})
